@@ -218,3 +218,21 @@ func TestVerifWitness_D5(t *testing.T) {
 	}
 	fmt.Printf("WITNESS-PASSES D5 value=%q type=%q\n", v1, t1)
 }
+
+// D13: format() with an unknown *default* font id reports its error at line 0 (zero fontIdToken)
+// (obligation parseFormatStringOperator/pre[C18:located]@NewParseError)
+func TestVerifWitness_D13(t *testing.T) {
+	src := "script S {\n  msgbox(format(\"hello there\"))\n}\n"
+	p := New(lexer.New(src), CommandConfig{}, "../font_config.json", "no_such_font", 0, nil)
+	_, err := p.ParseProgram()
+	pe, ok := err.(ParseError)
+	if err == nil || !ok {
+		fmt.Printf("WITNESS-PASSES D13 (no located error to judge: %v)\n", err)
+		return
+	}
+	if pe.LineNumberStart < 1 || pe.LineNumberStart > pe.LineNumberEnd || pe.LineNumberEnd > 3 {
+		fmt.Printf("WITNESS-FAILS D13 error range %d..%d is not inside the 3-line input: %s\n", pe.LineNumberStart, pe.LineNumberEnd, pe.Message)
+		return
+	}
+	fmt.Printf("WITNESS-PASSES D13 error at lines %d..%d: %s\n", pe.LineNumberStart, pe.LineNumberEnd, pe.Message)
+}
